@@ -72,6 +72,25 @@ fn u06_codec_reads_agree() {
     }
 }
 
+// ---- the byte range of a signed count header (C39 / C35): `signed_bytes` is what `rewrite_lit_header` splices out when
+// the loader cuts a literal run of an UNTRUSTED column, so it must be exactly the bytes the reader consumes -- for every
+// input the reader accepts, minimal encoding or padded (complete: all inputs up to one byte more than the longest encoding)
+#[kani::proof]
+#[kani::unwind(13)]
+fn u06_signed_bytes_is_consumed() {
+    let bytes: [u8; 11] = kani::any();
+    let n: usize = kani::any();
+    kani::assume(n <= 11);
+    let data = &bytes[..n];
+    // (only for inputs the reader accepts: `signed_len` counts continuation bits and says 10 for a ten-byte value that
+    // overflows i64, which `read_signed` rejects -- the loader has rejected such a header before it gets here)
+    if let Some((k, _)) = Leb128::read_signed(data) {
+        let r = Leb128::signed_bytes(data, 0);
+        assert!(r.start == 0 && r.end == k);
+        assert!(Leb128::signed_len(data) == Some(k));
+    }
+}
+
 fn check_narrow_unpack_total<const N: usize>() {
     let bytes: [u8; N] = kani::any();
     let n: usize = kani::any();
